@@ -10,6 +10,22 @@ claimed = {
 }
 hooks=subprocess.run(["git","-C","/repo","log","--format=%H %s"],capture_output=True,text=True).stdout.strip().split("\n")
 hook_commits=[l.split()[0] for l in hooks if l.split(" ",1)[1].startswith("verif:")]
+claimed["C03"]=dict(
+   text="Deductive proof of the container writer and reader kernels: header.Write (table count = number of records written, head checksum field cleared before table checksums are computed, head table at least 12 bytes, no panic for any table map containing a head table, exact byte accounting), clearChecksum/patchChecksum (big-endian store of 0xB1B0AFBA - sum at head[8:12]), header.Read (no panic on any input, at least one table on success, reader faults returned). The checksum arithmetic itself (sum of big-endian words) and the directory layout bytes produced through encoding/binary are NOT decided; the independent-parser clause is a differential property outside this family.",
+   note="Assumes io.Writer/io.ReaderAt contracts in /verif/assumed/io.spec, sort.Slice permutes its slice and has no other effect, encoding/binary.Write into a local bytes.Buffer has no other effect. Requires a head table of >= 12 bytes (every call site passes one).",
+   ref="DESIGN.md section 5 (C03)")
+claimed["C18"]=dict(
+   text="Fault model as interface contract instead of fault injection: the assumed io.Writer may accept any n in [0,len(p)] and fail at any call, the assumed io.Reader/ReaderAt may fault at any call. Proven for all such behaviours: header.Write returns exactly the number of bytes the destination accepted on every return path and returns a non-nil error iff the destination reported one; every parser.Parser read returns io.ErrUnexpectedEOF iff it would pass the end of input and passes reader faults through; header.Read returns an error whenever its reader faults.",
+   note="Same assumed contracts as C17/C03. Not decided: that every truncation of a whole font is rejected by sfnt.Read (composition of all decoders), Font.Write/cff.Font.Write wiring above header.Write.",
+   ref="DESIGN.md section 5 (C18)")
+claimed["C11"]=dict(
+   text="Deductive proof of the glyf/loca framing: encodeLoca/decodeLoca are inverse (2*be16 / be32 of the table equals the offset for every entry, format 0 only when all offsets fit), decodeLoca returns non-decreasing in-range offsets, (*Glyph).encodeLen equals the number of bytes (*Glyph).append emits (recursive spec over the component list, padding included), Glyphs.Encode produces loca entries equal to the running sum of emitted glyph sizes, even and in the announced format; glyf.Decode, decodeGlyph, decodeGlyphComposite, removePadding and SimpleGlyph.Decode never panic and terminate on arbitrary bytes.",
+   note="Point-coordinate semantics of SimpleGlyph.Decode (flag table) and agreement with an independent decoder are not decided; Components/FixComponents not yet under contract.",
+   ref="DESIGN.md section 5 (C11)")
+claimed["C02"]=dict(
+   text="Per-decoder totality proofs (no panic: index/slice/nil/div/make/type-assert obligations; termination: decreases on every loop) for arbitrary input bytes, for the decoders under contract so far: parser (all methods), header.Read, glyf.decodeLoca, glyf.Decode, decodeGlyph, decodeGlyphComposite, removePadding, SimpleGlyph.Decode (lazy decoder on whatever decodeGlyph accepts).",
+   note="Only the listed decoders; sfnt.Read, cff, cmap, gtab, name, post, kern readers are not yet under contract. Allocation is bounded per make() (<= 2^40 elements, assumption A-MEM) but proportionality to input size and running time are not expressible.",
+   ref="DESIGN.md section 5 (C02)")
 na_reasons = {}
 m={"version":1,
  "setup_cmd":"cd /verif/engine && GOFLAGS=-mod=vendor GOPROXY=off GOSUMDB=off GOTOOLCHAIN=local go build -o ../bin/gvc ./cmd/gvc",
